@@ -9,7 +9,7 @@ open Ak Ak.Proto CliGraph
 new <sw> <default|-> <decl>...     -> ok | err AssertionError     (sw = three bits: _no_log, _no_log_file, _help_if_no_args)
 single <sw>                        -> ok                          (ArgParser without commands)
 deps                               -> deps <name>:<dep>/<dep> ...        (internal, diagnostic)
-opt <parser|*> <flag|flagoff|const=V|value|pos1|pos?|pos*|pos+>[!][@dest] <string>...   (value=D: default D; '!': required=True)   -> ok | err ArgumentError | err ValueError | err AssertionError
+opt <parser|*> <flag|flagoff|const=V|value|pos1|pos?|pos*|pos+>[!][@dest] [+keyword…] <string>...   (value=D: default D; '!': required=True)   -> ok | err ArgumentError | err ValueError | err AssertionError
 parse <token>...                   -> ok <dest>=<value> ... | err SystemExit <code> | err <Exception>
 parsev <token>...                  -> like parse, through parse_args() with sys.argv set
 parse2 <token>...                  -> <reply of parse> | <reply of a second parse_args with the same list object>
@@ -137,7 +137,10 @@ def handle (s : DSt) (line : String) : DSt × String :=
       | .single _ => (s, "deps")
     | .poisoned => (s, "poisoned")
     | .empty => (s, "no-parser")
-  | "opt" :: target :: kind :: strs =>
+  | "opt" :: target :: kind :: strs0 =>
+    -- tokens `+help=…`, `+metavar`, `+type` … are keywords that do not decide the option's kind: opaque data,
+    -- neither `declare` nor `addOption` inspects them
+    let strs := strs0.filter (fun t => !t.startsWith "+")
     match s with
     | .empty => (s, "no-parser")
     | .poisoned => (s, "poisoned")
